@@ -194,18 +194,23 @@ func profileFor(prop string) Profile {
 	case "C10":
 		p.Cloud = 4
 		p.CloudErr, p.Relist, p.AdminRelease = true, true, true
+		p.Stall = true
 	case "C02":
 		p.Ops = [2]int{15, 50}
+		p.Stall = true
 	case "C03":
 		p.Relist, p.AdminRelease = true, true
 		p.Ops = [2]int{15, 50}
+		p.Stall = true
 	case "C07":
 		p.PoolAPI, p.Pools = true, true
 		p.Kinds = []string{"dp", "dp", "dp", "sts"}
 		p.Policies = []string{"", "immutable", "never", "never"}
+		p.Stall = true
 	case "C09":
 		p.Reload, p.Reserve = true, true
 		p.Probe = "memcheck"
+		p.Faults = true // not in the property's quantifier; a reload that failed once must still be retried (convergence clause)
 	case "C05":
 		p.Probe = "memcheck"
 		p.Reload, p.AdminRelease = true, true
@@ -297,6 +302,9 @@ type World struct {
 	schedBefore      map[string][]string
 	schedTouched     map[string]bool
 	hostileSeq        int
+	settleRounds      int
+	periodicReload    *core.Task
+	stalled           map[*core.Task]int // task -> scheduler step until which it is not scheduled (sched.stall)
 	hostileConfActive bool
 }
 
@@ -312,11 +320,22 @@ func (w *World) fail(oracle, key, format string, a ...interface{}) {
 
 func newWorld(s *core.Sim, prop, tier string) *World {
 	w := &World{S: s, C: s.C, prop: prop, tier: tier, prof: profileFor(prop), pods: map[string]*PodInfo{}, podByUID: map[string]*PodInfo{},
-		gone: map[string]bool{}, busy: map[string]*core.Task{}, schedBusy: map[string]*core.Task{}, cloud: map[string]string{}, memdump: map[string][]memEntry{}, unsched: map[string]bool{}, M: newModel(), schedBefore: map[string][]string{}, schedTouched: map[string]bool{}}
+		gone: map[string]bool{}, busy: map[string]*core.Task{}, schedBusy: map[string]*core.Task{}, cloud: map[string]string{}, memdump: map[string][]memEntry{}, unsched: map[string]bool{}, M: newModel(), schedBefore: map[string][]string{}, schedTouched: map[string]bool{}, stalled: map[*core.Task]int{}}
 	w.K = simkube.New(s)
 	w.K.OnMutate = w.onMutate
 	s.OnPanic = w.onPanic
 	s.OnLockLeak = w.onLockLeak
+	s.Hide = func(t *core.Task) bool {
+		until, ok := w.stalled[t]
+		if !ok {
+			return false
+		}
+		if w.S.Steps >= until {
+			delete(w.stalled, t)
+			return false
+		}
+		return true
+	}
 	c := w.C
 	w.topo = genTopo(c)
 	w.confVers = append(w.confVers, w.topo.Snapshot())
@@ -421,6 +440,19 @@ func (w *World) onMutate(m *simkube.Mutation) {
 	}
 }
 
+// reloadInFlight: a configuration reload (triggered through the hook, or the periodic one) is running.
+func (w *World) reloadInFlight() bool {
+	for _, t := range w.inflight {
+		if t.Tag == "reload" && !w.taskDone(t) {
+			return true
+		}
+	}
+	if t := w.periodicReload; t != nil && t.Proc == w.proc && !w.taskDone(t) && !t.Sleeping() {
+		return true
+	}
+	return false
+}
+
 // taskMeta is attached to tasks the world spawns (scheduler-side only).
 type taskMeta struct {
 	start    int
@@ -488,7 +520,7 @@ func (w *World) noteSchedTouched(m *simkube.Mutation) {
 
 func (w *World) onFipMutate(m *simkube.Mutation) {
 	w.noteSchedTouched(m)
-	if w.probe != nil && w.probe.entry != nil {
+	if w.probe != nil && len(w.probe.entries) > 0 {
 		ip, key := "", ""
 		if m.Old != nil {
 			ip, key = m.Old.Name, decodeFip(m.Old).Key
@@ -569,6 +601,7 @@ func (w *World) Handle(t *core.Task, r *core.Req) core.Resp {
 				t.Data = &taskMeta{start: w.S.Steps, confRead: len(w.confVers) - 1}
 				if t.Tag == "" {
 					t.Tag = "periodic-reload"
+					w.periodicReload = t
 				}
 			}
 		}
@@ -703,7 +736,7 @@ func (w *World) handleReport(t *core.Task, r *core.Req) core.Resp {
 		return core.Resp{}
 	case "w.probe.entry":
 		if w.probe != nil {
-			_ = json.Unmarshal(r.B, &w.probe.entry)
+			_ = json.Unmarshal(r.B, &w.probe.entries)
 		}
 		return core.Resp{}
 	}
@@ -829,6 +862,9 @@ func (w *World) Actions() []core.Action {
 
 func (w *World) advanceTime() {
 	w.lastAdvStep = w.S.Steps
+	if w.reloadInFlight() {
+		return // the real daemon reloads from one goroutine only: do not wake the periodic reload next to a triggered one
+	}
 	if ts, ok := w.S.NextTimer(true); ok {
 		w.S.Stat("time.advance")
 		w.S.AdvanceTo(ts)
@@ -841,6 +877,9 @@ func (w *World) deliver(kind string) {
 		return
 	}
 	w.S.Stat("informer.delivered")
+	if kind == "deployments" || kind == "pools" {
+		defer w.trackFilterWindows()
+	}
 	if kind == "pools" {
 		name := ev.Key[strings.Index(ev.Key, "/")+1:]
 		if ev.New == nil {
@@ -882,6 +921,11 @@ func (w *World) deliver(kind string) {
 // Idle drives the end-of-run phases.
 func (w *World) Idle() bool {
 	w.gc()
+	if len(w.stalled) > 0 {
+		// nothing else can run: the stalled tasks resume
+		w.stalled = map[*core.Task]int{}
+		return true
+	}
 	if w.inst == nil && !w.crashed {
 		return false
 	}
@@ -917,6 +961,12 @@ func (w *World) Idle() bool {
 		w.faultsOn = false
 		return true
 	case 2:
+		if w.armed("C09") && w.settleRounds < 3 {
+			// let the periodic configuration reload run (it retries every minute) before judging convergence
+			w.settleRounds++
+			w.S.AdvanceTo(core.ClockNanos() + int64(61e9))
+			return true
+		}
 		if b := w.S.Blocked(); len(b) > 0 {
 			if w.armed("C18") {
 				w.fail("C18.wedged", "wedged", "tasks blocked forever on locks at quiescence (a lock is held by a task that ended or never returns): %s", taskNames(b))
@@ -1015,6 +1065,7 @@ func (w *World) newPodObject(a *App, name string, index int) corev1.Pod {
 }
 
 func (w *World) createAppObject(a *App) {
+	w.noteReplicas(a)
 	r := int32(a.Replicas)
 	switch a.Kind {
 	case "sts":
@@ -1044,6 +1095,8 @@ func appKindRes(a *App) string {
 
 func (w *World) setReplicas(a *App, n int) {
 	a.Replicas = n
+	w.noteReplicas(a)
+	defer w.trackFilterWindows()
 	kind := appKindRes(a)
 	if kind == "" || !a.Exists {
 		return
